@@ -13,7 +13,7 @@ pub fn generate(tier: &str, rng: &mut Rng) -> Vec<Spec> {
     let (maxn, len) = if thorough { (7, 7) } else { (6, 5) };
     for n in 1..=maxn {
         for l in 0..=len {
-            for xs in super::all_seqs(&[-1i64, 0, 2, 5], l) {
+            for xs in crate::util::all_seqs(&[-1i64, 0, 2, 5], l) {
                 v.push(Spec::new("mean").with("N", n).with("ty", "rat").with("xs", join(&xs)));
                 if l == len || l <= 2 { v.push(Spec::new("mean").with("N", n).with("ty", "int").with("xs", join(&xs))); }
             }
